@@ -8,24 +8,11 @@ import time
 from . import mir
 from .mir import Body, call_matches, callee_of, fmt_expr, glob, has_all, has_leaf, leaves, walk
 
-RESULT_COMBINATORS = (
-    "std::result::Result::<T, E>::map_err",
-    "std::result::Result::<T, E>::map",
-    "std::result::Result::<T, E>::and_then",
-    "std::result::Result::<T, E>::inspect_err",
-    "std::result::Result::<T, E>::inspect",
-    "std::option::Option::<T>::ok_or",
-    "std::option::Option::<T>::ok_or_else",
-    "std::option::Option::<T>::map",
-    "std::option::Option::<T>::and_then",
-    "std::option::Option::<T>::filter",
-    "std::convert::Into::into",
-    "std::convert::From::from",
-    "<T as std::convert::Into<U>>::into",
-    "std::ops::Try::branch",
-    "<std::result::Result<T, E> as std::ops::Try>::branch",
-    "<std::option::Option<T> as std::ops::Try>::branch",
-)
+from .mir import is_tail, std_tail, CMP_TAILS, TRANSPARENT_TAILS, RESULT_TAILS
+
+
+def is_combinator(e):
+    return is_tail(e[2], RESULT_TAILS) or is_tail(e[2], TRANSPARENT_TAILS)
 
 
 # ---------------------------------------------------------------------------- specs
@@ -106,15 +93,15 @@ def bool_nodes(e, neg=False, depth=0, seen=None):
     elif tag in ("proj", "part"):
         yield from bool_nodes(e[2], neg, depth + 1, seen)
     elif tag == "call":
-        n = e[1]
-        if n in ("std::ops::Not::not", "<bool as std::ops::Not>::not"):
+        tl = std_tail(e[2])
+        if tl == "Not::not":
             yield from bool_nodes(e[3][0], not neg, depth + 1, seen)
-        elif n in mir.TRANSPARENT or n in RESULT_COMBINATORS or e[2] in RESULT_COMBINATORS or e[2] in mir.TRANSPARENT:
+        elif is_combinator(e):
             if e[3]:
                 yield from bool_nodes(e[3][0], neg, depth + 1, seen)
-        elif e[2] in ("std::option::Option::<T>::is_some", "std::result::Result::<T, E>::is_ok") and e[3]:
+        elif tl in ("Option::is_some", "Result::is_ok") and e[3]:
             yield from bool_nodes(e[3][0], neg, depth + 1, seen)
-        elif e[2] in ("std::option::Option::<T>::is_none", "std::result::Result::<T, E>::is_err") and e[3]:
+        elif tl in ("Option::is_none", "Result::is_err") and e[3]:
             yield from bool_nodes(e[3][0], not neg, depth + 1, seen)
 
 
@@ -124,12 +111,9 @@ def comparison_of(node):
     if tag == "bin" and node[1] in mir.CMP_BIN:
         return node[1], node[2], node[3]
     if tag == "call":
-        for n in (node[2], node[1]):
-            if n in mir.CMP_CALLS and len(node[3]) >= 2:
-                return mir.CMP_CALLS[n], node[3][0], node[3][1]
-            m = re.search(r"::(eq|ne|lt|le|gt|ge)$", n)
-            if m and ("PartialEq" in n or "PartialOrd" in n) and len(node[3]) >= 2:
-                return m.group(1).capitalize(), node[3][0], node[3][1]
+        tl = std_tail(node[2])
+        if tl in CMP_TAILS and len(node[3]) >= 2:
+            return CMP_TAILS[tl], node[3][0], node[3][1]
     return None, None, None
 
 
@@ -139,7 +123,7 @@ def classify_expr(e, depth=0):
     if depth > 8:
         return "may"
     if tag == "agg":
-        if e[1] in ("std::result::Result", "std::option::Option", "std::ops::ControlFlow"):
+        if e[1] in ("core::result::Result", "core::option::Option", "core::ops::control_flow::ControlFlow"):
             if e[2] in ("Ok", "Some"):
                 return "accept"
             if e[2] in ("Err", "None"):
@@ -150,7 +134,7 @@ def classify_expr(e, depth=0):
             return "accept" if e[1] else "reject"
         return "accept"
     if tag == "call":
-        if e[2] == "std::ops::FromResidual::from_residual":
+        if std_tail(e[2]) == "FromResidual::from_residual":
             return "reject"
         return "may"
     if tag == "phi":
@@ -190,7 +174,7 @@ def result_chain(e, depth=0):
         tag = e[0]
         if tag == "call":
             out.append(e)
-            if (e[1] in RESULT_COMBINATORS or e[2] in RESULT_COMBINATORS or e[1] in mir.TRANSPARENT or e[2] in mir.TRANSPARENT) and e[3]:
+            if is_combinator(e) and e[3]:
                 e = e[3][0]
                 continue
             return out
@@ -340,10 +324,33 @@ def short(p):
 
 
 # ---------------------------------------------------------------------------- engine G
+def infeasible_edges(body):
+    """Edges that can never be taken: the Continue arm of `Err(..)?` / `None?` (a `?` applied
+    to a value that is a constant Err/None on every reaching definition)."""
+    memo = getattr(body, "_infeasible", None)
+    if memo is not None:
+        return memo
+    out = set()
+    for b in range(body.n):
+        t = body.blocks[b]["t"]
+        if body.blocks[b]["cl"] or t["k"] != "switch":
+            continue
+        e = body.switch_discr_expr(b)
+        if e[0] != "discr":
+            continue
+        c = e[1]
+        if c[0] == "call" and std_tail(c[2]) == "Try::branch" and c[3] and classify_expr(c[3][0]) == "reject":
+            for v, tb in t["targets"]:
+                if v == 0:
+                    out.add((b, tb))
+    body._infeasible = out
+    return out
+
+
 class Guards:
     """Guard analysis of one body relative to a set of target blocks."""
 
-    def __init__(self, ctx, body, targets=None, cut_back_edges=False, start=None, stop_blocks=(), env=None, depth=0):
+    def __init__(self, ctx, body, targets=None, cut_back_edges=True, start=None, stop_blocks=(), env=None, depth=0):
         self.ctx = ctx
         self.body = body
         self.env = env
@@ -353,7 +360,7 @@ class Guards:
             targets = [x["block"] for x in self.exits if x["kind"] in ("accept", "may")]
         self.targets = set(targets)
         self.start = [0] if start is None else list(start)
-        self.removed = set()
+        self.removed = set(infeasible_edges(body))
         if cut_back_edges:
             for b in body.reachable_from([0]):
                 for d in body.succ(b):
@@ -497,9 +504,9 @@ def loop_heads(ctx, body, iter_pats):
     """Blocks calling Iterator::next on an iterator whose slice matches iter_pats ->
     list of (next_block, body_entry_block)."""
     out = []
-    for b in body.call_sites(["std::iter::Iterator::next", "*::next"]):
+    for b in body.call_sites(["*::next"]):
         t = body.blocks[b]["t"]
-        if t.get("trait") not in ("std::iter::Iterator", None) and "Iterator" not in (t.get("trait") or ""):
+        if "Iterator" not in (t.get("trait") or "") and "Stream" not in (t.get("trait") or ""):
             continue
         e = body.expr_call(t, b, 0)
         if not has_all(ctx.leaves(e), iter_pats):
@@ -579,7 +586,7 @@ def per_iteration(ctx, body, iter_pats, spec, rule, what, skip=None):
     return False
 
 
-def require_guard(ctx, body, spec, rule, targets=None, cut_back_edges=False, start=None, what=None, min_guards=1):
+def require_guard(ctx, body, spec, rule, targets=None, cut_back_edges=True, start=None, what=None, min_guards=1):
     """Rule: every path from entry (or start) to every accepting site (or target) passes the
     passing edge of a guard matching spec."""
     g = Guards(ctx, body, targets, cut_back_edges, start)
@@ -751,3 +758,51 @@ def edge_call_truth(ctx, body, sw, label, call_globs):
         if node[0] == "call" and any(glob(g, node[1]) or glob(g, node[2]) for g in call_globs):
             return truth != neg
     return None
+
+
+# ---------------------------------------------------------------------------- engine D helpers
+def aggregates(ctx, body, adt_glob, variant=None):
+    """Aggregate constructions of an ADT in body -> list of (block, {field: expr})."""
+    out = []
+    for b in sorted(body.reachable_from([0])):
+        for i, s in enumerate(body.stmts(b)):
+            r = s["r"]
+            if r["k"] == "agg" and r.get("ak") == "adt" and glob(adt_glob, r["adt"]) and (variant is None or r.get("variant") == variant):
+                fields = {}
+                for name, op in zip(r.get("fields") or [], r["ops"]):
+                    fields[name] = body.expr_operand(op)
+                out.append((b, fields, body.loc(b, i)))
+    return out
+
+
+def return_leaves(ctx, body, kinds=("accept", "may")):
+    """Union of the leaves of every accepted return value."""
+    out = set()
+    for x in exit_sites(body):
+        if x["kind"] in kinds:
+            out |= ctx.leaves(x["expr"])
+    return out
+
+
+def call_sites_with(ctx, body, pats, leaf_pats=()):
+    out = []
+    for b in body.call_sites(pats):
+        if not leaf_pats or has_all(ctx.leaves(call_expr(body, b)), leaf_pats):
+            out.append(b)
+    return out
+
+
+def const_value(ctx, path):
+    c = ctx.facts.const(path)
+    return None if c is None else c.get("v")
+
+
+def holds(ctx, body, spec, targets=None, cut_back_edges=True, start=None):
+    """Silent form of require_guard -> (bool, guard sites)."""
+    g = Guards(ctx, body, targets, cut_back_edges, start)
+    ctx.evaluations += len(g.switches)
+    if not g.targets:
+        return False, []
+    path, gs = g.unguarded_path(spec)
+    bad = [x for x in gs if x[2].get("bad_polarity")]
+    return path is None, [body.loc(b) for b, _, _ in gs if (b, _, _) not in bad]
